@@ -23,7 +23,7 @@ variable {K : Type} [Field K] [LinearOrder K] [IsStrictOrderedRing K]
 
 theorem two_eq : (two : K) = 2 := by unfold two; norm_num
 
-theorem half_pos' : (0 : K) < 1 / 2 := by norm_num
+theorem ident_half_pos' : (0 : K) < 1 / 2 := by norm_num
 
 theorem half_lt_one' : (1 / 2 : K) < 1 := by
   rw [div_lt_one (by norm_num)]; norm_num
@@ -152,7 +152,7 @@ theorem identVal_neg (f : Functional) (α : K) (hα0 : 0 < α) (hα1 : α < 1) {
     (h : z < y) : identVal f α y z < 0 := by
   cases f
   · simp only [identVal]; linarith
-  · simp only [identVal]; rw [geInd_of_lt h]; linarith [half_pos' (K := K)]
+  · simp only [identVal]; rw [geInd_of_lt h]; linarith [ident_half_pos' (K := K)]
   · rw [identVal_expectile α hα0 hα1, if_neg (not_le.mpr h)]
     have : α * (z - y) < 0 := mul_neg_of_pos_of_neg hα0 (by linarith)
     linarith
@@ -321,7 +321,7 @@ theorem elemV_nonpos (f : Functional) (α : K) (hα0 : 0 < α) (hα1 : α < 1) {
     elemV f α η y ≤ 0 := by
   cases f
   · simp only [elemV]; linarith
-  · simp only [elemV]; rw [if_neg (not_lt.mpr h)]; linarith [half_pos' (K := K)]
+  · simp only [elemV]; rw [if_neg (not_lt.mpr h)]; linarith [ident_half_pos' (K := K)]
   · simp only [elemV]
     exact mul_nonpos_of_nonneg_of_nonpos
       (mul_nonneg (by norm_num) (absK_geInd_pos α hα0 hα1 η y).le) (by linarith)
